@@ -171,7 +171,10 @@ class EventManager:
             for event in events:
                 this_str = str(event.contents)
                 base[event.start_index].append(this_str)
+                start_time = self.onsets.iloc[event.start_index]
                 for i in range(event.start_index + 1, event.end_index):
+                    if abs(self.onsets.iloc[i] - start_time) <= 1e-9:
+                        continue  # a further row of the time point at which the event starts
                     contexts[i].append(this_str)
         self.base = self.compress_strings(base)
         self.contexts = self.compress_strings(contexts)
